@@ -9,8 +9,8 @@ program header and zero padding up to file offset 4096, ONE section `.text` = th
 `[low_address, high_address]` (`read8`: unwritten cells read 0), zero padding of the byte count to the CPU's
 alignment (not part of the section since fix 33dc1d5), for ARM the `.ARM.attributes` blob + 3 zero bytes,
 `.shstrtab`, `align(4)`, `.strtab` (NUL, file name, the exported symbols' names), `align(4)`, `.symtab`
-(null, FILE, SECTION(.text) [, SECTION(.ARM.attributes)], one GLOBAL FUNC entry per exported symbol),
-`.comment`, `align(4)`, the section header table; finally it seeks back and patches e_shoff, e_shnum and
+(null, FILE, SECTION(.text) [, SECTION(.ARM.attributes)], one GLOBAL FUNC entry per exported symbol; sh_info =
+number of these local entries), `.comment` (NUL-terminated), `align(4)`, the section header table; finally it seeks back and patches e_shoff, e_shnum and
 e_shstrndx.  The file position (`file.tell()`) is the length of the bytes written so far.
 
 The `.data` branch of the section header code is dead (`sections_offset.data` is never set) and is left out.
@@ -212,96 +212,131 @@ def symEntries (big is32 : Bool) : Nat → List Sym → List Byte
   | _, [] => []
   | off, (n, a) :: rest => renderSym big is32 off a 0 18 0 1 ++ symEntries big is32 (off + n.length + 1) rest
 
-/-- everything `write_elf` computes, kept for the theorems: the file before the final patch, the positions
-patched, the section headers written -/
-structure Layout where
-  body : List Byte          -- the file as written before seeking back
-  shoffOffset : Nat
-  shnumOffset : Nat
-  shoff : Nat               -- `marker` = position of the section header table
-  shnum : Nat
-  shstrndx : Nat
-  shdrs : List Shdr
-  is32 : Bool
-  big : Bool
+/-! ### `write_elf`, statement by statement: `fK` is the file after step K, `file.tell()` = its length -/
 
-def layout (img : Image) (syms : List Sym) (cfg : Config) : Layout :=
-  let big := img.bigEndian
-  let h := cpuHdr cfg.cpuType cfg.alignment
-  let is32 := h.cls == 1
-  let isArm := cfg.cpuType == CpuType.arm
-  -- write_elf_header
-  let hasEntry := img.entry ≠ 0xffffffff
-  let eEntry := if hasEntry then img.entry else 0
-  let phnum := if hasEntry then 1 else 0
-  let phoff := if hasEntry then (if is32 then 0x34 else 0x40) else 0
-  let phentsize := if hasEntry then (if is32 then 32 else 56) else 0
-  let shnum0 := 4 + h.shnumExtra + 1
-  let pre := ehdrPre big h eEntry phoff
-  let f0 := ehdr big h eEntry phoff phentsize phnum 0 shnum0 2
-  -- program header, padding to 4096
-  let f1 := if hasEntry then
-      let p := f0 ++ phdr big is32 img.low (count32 img)
-      p ++ List.replicate (4096 - p.length) 0
-    else f0
-  -- write_elf_text_and_data
+section
+variable (img : Image) (syms : List Sym) (cfg : Config)
+
+def hdrOf : Hdr := cpuHdr cfg.cpuType cfg.alignment
+def is32 : Bool := (hdrOf cfg).cls == 1
+def isArm : Bool := cfg.cpuType == CpuType.arm
+def hasEntry : Bool := img.entry != 0xffffffff
+def eEntry : Nat := if hasEntry img then img.entry else 0
+def phnum : Nat := if hasEntry img then 1 else 0
+def phoff : Nat := if hasEntry img then (if is32 cfg then 0x34 else 0x40) else 0
+def phentsize : Nat := if hasEntry img then (if is32 cfg then 32 else 56) else 0
+/-- `e_shnum` as `write_elf_header` leaves it: 4, ARM's extra one, the null section -/
+def shnum0 : Nat := 4 + (hdrOf cfg).shnumExtra + 1
+/-- after `write_elf_text_and_data` -/
+def shnum : Nat := shnum0 cfg + 1
+
+/-- write_elf_header: e_shoff = 0, preliminary e_shnum, e_shstrndx = 2 -/
+def f0 : List Byte :=
+  ehdr img.bigEndian (hdrOf cfg) (eEntry img) (phoff img cfg) (phentsize img cfg) (phnum img) 0 (shnum0 cfg) 2
+
+/-- `if (elf.e_phnum > 0) { write_phdr(low, high - low + 1); while (marker < 4096) { write_int8(0); marker++; } }` -/
+def f1 : List Byte :=
+  if hasEntry img then
+    let p := f0 img cfg ++ phdr img.bigEndian (is32 cfg) img.low (count32 img)
+    p ++ List.replicate (4096 - p.length) 0
+  else f0 img cfg
+
+/-- `elf->sections_offset.text = file.tell()` -/
+def textOff : Nat := (f1 img cfg).length
+def textBytes : List Byte := img.cells.map (fun c => c.getD 0)
+def f2 : List Byte := f1 img cfg ++ textBytes img
+def textSize : Nat := (f2 img cfg).length - textOff img cfg
+def f3 : List Byte :=
+  if cfg.alignment > 1 then
+    f2 img cfg ++ List.replicate (padLoop (cfg.alignment - 1) (2 * cfg.alignment) (count32 img)) 0
+  else f2 img cfg
+
+/-- `elf.string_table` after `.text` (and, for ARM, `.ARM.attributes`) was appended -/
+def shstrTable : List Byte :=
   let t1 := stringTableAppend stringTableDefault (str ".text")
-  let textOff := f1.length
-  let f2 := f1 ++ img.cells.map (fun c => c.getD 0)
-  let textSize := f2.length - textOff
-  let f3 := if cfg.alignment > 1 then
-      f2 ++ List.replicate (padLoop (cfg.alignment - 1) (2 * cfg.alignment) (count32 img)) 0
-    else f2
-  let shnum := shnum0 + 1
-  -- write_arm_attribute
-  let t2 := if isArm then stringTableAppend t1 (str ".ARM.attributes") else t1
-  let armOff := f3.length
-  let f4 := if isArm then f3 ++ aeabi ++ [0, 0, 0] else f3
-  let armSize := if isArm then aeabi.length else 0
-  -- .shstrtab
-  let shstrOff := f4.length
-  let f5 := f4 ++ (t2 ++ List.replicate (stringTableLen t2 - t2.length) 0).take (stringTableLen t2) ++ [0]
-  let shstrSize := f5.length - shstrOff
-  -- .strtab
-  let f6 := alignTo 4 f5
-  let strtabOff := f6.length
-  let f7 := f6 ++ [0] ++ cfg.filename ++ [0] ++ symNames syms
-  let strtabSize := f7.length - strtabOff
-  -- .symtab
-  let f8 := alignTo 4 f7
-  let symtabOff := f8.length
-  let f9 := f8 ++ renderSym big is32 0 0 0 0 0 0 ++ renderSym big is32 1 0 0 4 0 65521 ++ renderSym big is32 0 0 0 3 0 1 ++
-    (if isArm then renderSym big is32 0 0 0 3 0 (shnum - 1) else []) ++
-    symEntries big is32 (cfg.filename.length + 2) syms
-  let symtabSize := f9.length - symtabOff
-  -- .comment
-  let commentOff := f9.length
-  let f10 := f9 ++ comment
-  let commentSize := f10.length - commentOff
-  let f11 := alignTo 4 f10
-  let marker := f11.length
-  -- section headers
-  let shText : Shdr := { name := findSection t2 ".text", type := 1, flags := 6, addr := u32 img.low, offset := textOff,
-                         size := textSize, addralign := cfg.alignment }
-  let shShstr : Shdr := { name := findSection t2 ".shstrtab", type := 3, offset := shstrOff, size := shstrSize, addralign := 1 }
-  let shSymtab : Shdr := { name := findSection t2 ".symtab", type := 2, offset := symtabOff, size := symtabSize, link := 4,
-                           info := syms.length + 2, addralign := 4, entsize := if is32 then 16 else 24 }
-  let shStrtab : Shdr := { name := findSection t2 ".strtab", type := 3, offset := strtabOff, size := strtabSize, addralign := 1 }
-  let shComment : Shdr := { name := findSection t2 ".comment", type := 1, flags := 0x30, offset := commentOff,
-                            size := commentSize, addralign := 1, entsize := 1 }
-  let shArm : Shdr := { name := findSection t2 ".ARM.attributes", type := 1879048195, offset := armOff, size := armSize,
-                        addralign := 1 }
-  let shdrs := [{}, shText, shShstr, shSymtab, shStrtab, shComment] ++ (if isArm then [shArm] else [])
-  { body := f11 ++ shdrs.flatMap (renderShdr big is32),
-    shoffOffset := pre.length,
-    shnumOffset := (pre ++ wAddr big is32 0 ++ ehdrMid big h phentsize phnum).length,
-    shoff := marker, shnum := shnum, shstrndx := 2, shdrs := shdrs, is32 := is32, big := big }
+  if isArm cfg then stringTableAppend t1 (str ".ARM.attributes") else t1
 
-/-- `write_elf`: the body, then `file.set(shoff_offset); write e_shoff; ... file.set(shnum_offset);
-write_int16(e_shnum); write_int16(e_shstrndx);` -/
-def write (img : Image) (syms : List Sym) (cfg : Config) : List Byte :=
-  let l := layout img syms cfg
-  let f := overwrite l.body l.shoffOffset (wAddr l.big l.is32 l.shoff)
-  overwrite f l.shnumOffset (wInt l.big 2 l.shnum ++ wInt l.big 2 l.shstrndx)
+def armOff : Nat := (f3 img cfg).length
+def f4 : List Byte := if isArm cfg then f3 img cfg ++ aeabi ++ [0, 0, 0] else f3 img cfg
+def armSize : Nat := if isArm cfg then aeabi.length else 0
+
+/-- `file.write_chars(elf.string_table, get_string_table_len(elf.string_table)); file.write_int8(0);` -/
+def shstrBytes : List Byte :=
+  let t := shstrTable cfg
+  (t ++ List.replicate (stringTableLen t - t.length) 0).take (stringTableLen t) ++ [0]
+def shstrOff : Nat := (f4 img cfg).length
+def f5 : List Byte := f4 img cfg ++ shstrBytes cfg
+def shstrSize : Nat := (f5 img cfg).length - shstrOff img cfg
+
+def f6 : List Byte := alignTo 4 (f5 img cfg)
+def strtabOff : Nat := (f6 img cfg).length
+def strtabBytes : List Byte := [0] ++ cfg.filename ++ [0] ++ symNames syms
+def f7 : List Byte := f6 img cfg ++ strtabBytes syms cfg
+def strtabSize : Nat := (f7 img syms cfg).length - strtabOff img cfg
+
+def f8 : List Byte := alignTo 4 (f7 img syms cfg)
+def symtabOff : Nat := (f8 img syms cfg).length
+def symtabBytes : List Byte :=
+  let big := img.bigEndian
+  let w := is32 cfg
+  renderSym big w 0 0 0 0 0 0 ++ renderSym big w 1 0 0 4 0 65521 ++ renderSym big w 0 0 0 3 0 1 ++
+    (if isArm cfg then renderSym big w 0 0 0 3 0 (shnum cfg - 1) else []) ++
+    symEntries big w (cfg.filename.length + 2) syms
+def f9 : List Byte := f8 img syms cfg ++ symtabBytes img syms cfg
+def symtabSize : Nat := (f9 img syms cfg).length - symtabOff img syms cfg
+
+def commentOff : Nat := (f9 img syms cfg).length
+/-- `write_string(..., null_terminate = true)` since the SHF_STRINGS fix -/
+def f10 : List Byte := f9 img syms cfg ++ (comment ++ [0])
+def commentSize : Nat := (f10 img syms cfg).length - commentOff img syms cfg
+def f11 : List Byte := alignTo 4 (f10 img syms cfg)
+/-- `marker` = where the section header table starts -/
+def shoff : Nat := (f11 img syms cfg).length
+
+def shText : Shdr :=
+  { name := findSection (shstrTable cfg) ".text", type := 1, flags := 6, addr := u32 img.low, offset := textOff img cfg,
+    size := textSize img cfg, addralign := cfg.alignment }
+def shShstr : Shdr :=
+  { name := findSection (shstrTable cfg) ".shstrtab", type := 3, offset := shstrOff img cfg, size := shstrSize img cfg,
+    addralign := 1 }
+/-- `sh_info` = 2 + 1 (+ 1 for ARM): the local entries null, FILE, SECTION .text (, SECTION .ARM.attributes) -/
+def shSymtab : Shdr :=
+  { name := findSection (shstrTable cfg) ".symtab", type := 2, offset := symtabOff img syms cfg,
+    size := symtabSize img syms cfg, link := 4, info := 2 + 1 + (if isArm cfg then 1 else 0), addralign := 4,
+    entsize := if is32 cfg then 16 else 24 }
+def shStrtab : Shdr :=
+  { name := findSection (shstrTable cfg) ".strtab", type := 3, offset := strtabOff img cfg,
+    size := strtabSize img syms cfg, addralign := 1 }
+def shComment : Shdr :=
+  { name := findSection (shstrTable cfg) ".comment", type := 1, flags := 0x30, offset := commentOff img syms cfg,
+    size := commentSize img syms cfg, addralign := 1, entsize := 1 }
+def shArm : Shdr :=
+  { name := findSection (shstrTable cfg) ".ARM.attributes", type := 1879048195, offset := armOff img cfg,
+    size := armSize cfg, addralign := 1 }
+
+/-- the section headers in the order written -/
+def shdrs : List Shdr :=
+  [{}, shText img cfg, shShstr img cfg, shSymtab img syms cfg, shStrtab img syms cfg, shComment img syms cfg] ++
+    (if isArm cfg then [shArm img cfg] else [])
+
+def shtab : List Byte := (shdrs img syms cfg).flatMap (renderShdr img.bigEndian (is32 cfg))
+
+/-- the file before seeking back -/
+def body : List Byte := f11 img syms cfg ++ shtab img syms cfg
+
+/-- `elf->shoff_offset` -/
+def shoffOffset : Nat := (ehdrPre img.bigEndian (hdrOf cfg) (eEntry img) (phoff img cfg)).length
+/-- `elf->shnum_offset` -/
+def shnumOffset : Nat :=
+  (ehdrPre img.bigEndian (hdrOf cfg) (eEntry img) (phoff img cfg) ++ wAddr img.bigEndian (is32 cfg) 0 ++
+    ehdrMid img.bigEndian (hdrOf cfg) (phentsize img cfg) (phnum img)).length
+
+/-- `write_elf`: the body, then `file.set(shoff_offset); write e_shoff; file.set(shnum_offset);
+write_int16(e_shnum); write_int16(e_shstrndx);` (e_shstrndx = 1 + 1 for `.text`) -/
+def write : List Byte :=
+  let f := overwrite (body img syms cfg) (shoffOffset img cfg) (wAddr img.bigEndian (is32 cfg) (shoff img syms cfg))
+  overwrite f (shnumOffset img cfg) (wInt img.bigEndian 2 (shnum cfg) ++ wInt img.bigEndian 2 2)
+
+end
 
 end NakenVerif.FileIO.ElfImpl
